@@ -22,6 +22,14 @@
 (* option is given the path; "cfgfile": a main config file names it), so   *)
 (* that it carries __path__ and save() writes it as a sub-config file.     *)
 (*                                                                         *)
+(* Round 4: partial compute functions (par, paro, linp: FnDefined) and the  *)
+(* two-source lino; shape.ap (the parser is used through ActionParser);    *)
+(* the channel "dcf" (a default config file of the parser); AlgDumpSD      *)
+(* (dump(skip_default=True)); histories (Changed / HistOK / AlgHist: the   *)
+(* sources of the returned namespace are edited, the namespace is parsed   *)
+(* again).  Named deviations: ListItemsKeepTarget, ApDropsLinks,           *)
+(* SubEnvRaises, DcfRaises (findings of C15).                              *)
+(*                                                                         *)
 (* Ref   what the property states about an observed outcome (TargetEq,     *)
 (*       NotRequired, PlainOptionRejected, DumpHidesTarget, Reconstructed) *)
 (* Alg   ActionLink.__init__/__call__ (_link_arguments.py:112-259),        *)
@@ -58,6 +66,7 @@ SourcesOf(shape) == UNION {{shape.links[i].srcs[j] : j \in DOMAIN shape.links[i]
 HasS(shape)      == SourcesOf(shape) \cap {"s", "sl"} # {}
 HasO(shape)      == "o" \in SourcesOf(shape)
 \* the compute functions are injective on the value domain, and not symmetric
+RECURSIVE FnApply(_, _)
 FnApply(fn, args) ==
   CASE fn = "id"     -> args[1]                                           \* no compute function: the source itself
     [] fn = "one"    -> Int(10 * args[1].v + 7)
@@ -69,12 +78,25 @@ FnApply(fn, args) ==
                            [] OTHER -> Int(10 * args[1].v + 7))
     \* of a whole Optional[Class] argument: None, or which class
     [] fn = "cls"    -> (CASE args[1].k = "none" -> Int(94) [] args[1].c = "Src" -> Int(1) [] args[1].c = "SrcSub" -> Int(2) [] OTHER -> Int(3))
+    \* (round 4) partial functions: the call raises outside their domain (see FnDefined)
+    [] fn = "par"    -> Int(10 * args[1].v + 7)                           \* raises ValueError when its argument is 3
+    [] fn = "paro"   -> Int(10 * args[1].v + 7)                           \* v * 10 + 7: TypeError for None, '' and []
+    [] fn = "linp"   -> Int(10 * args[1].v + args[2].v)                   \* v * 10 + a: TypeError unless v is an integer
+    \* (round 4) several sources, the first one Optional, total: tot(v) * 10 + a
+    [] fn = "lino"   -> Int(10 * FnApply("tot", <<args[1]>>).v + args[2].v)
+\* the compute function returns (does not raise) on these arguments
+FnDefined(fn, args) == CASE fn = "par" -> args[1].v # 3
+                         [] fn \in {"paro", "linp"} -> args[1].k = "int"
+                         [] OTHER -> TRUE
 SrcVal(c, s) == IF s = "g" THEN NsV(c.gx.v, c.gy.v) ELSE IF s = "sl" THEN c.s.ia["limit"] ELSE c[s]
 \* a source inside a class argument exists only if the argument holds a class that defines it; a source whose value
 \* is None (or 0, '', []) does exist
 SourceExists(c, s) == s # "sl" \/ (c.s.k = "cls" /\ "limit" \in DOMAIN c.s.ia)
 Live(c, l)     == \A j \in DOMAIN l.srcs : SourceExists(c, l.srcs[j])
-Expected(c, l) == FnApply(l.fn, [j \in DOMAIN l.srcs |-> SrcVal(c, l.srcs[j])])
+ArgsOf(c, l)   == [j \in DOMAIN l.srcs |-> SrcVal(c, l.srcs[j])]
+Expected(c, l) == FnApply(l.fn, ArgsOf(c, l))
+\* some live link's compute function raises on the source values of c
+Raising(shape, c) == \E i \in DOMAIN shape.links : Live(c, shape.links[i]) /\ ~FnDefined(shape.links[i].fn, ArgsOf(c, shape.links[i]))
 
 \* ------------------------------------------------------------------ Ref
 \* every instance of the target that exists in c holds the function of the FINAL source values
@@ -82,6 +104,7 @@ Expected(c, l) == FnApply(l.fn, [j \in DOMAIN l.srcs |-> SrcVal(c, l.srcs[j])])
 TargetEqLink(shape, c, l) ==
   LET e == Expected(c, l) IN
   CASE ~Live(c, l) -> TRUE
+    [] ~FnDefined(l.fn, ArgsOf(c, l)) -> FALSE      \* the function raises on these sources: no successful parse may hold them
     [] l.tgt \in {"t", "d"} -> c[l.tgt] = e
     [] l.tgt = "mp" ->
          CASE c.m.k = "grp"  -> "p" \in DOMAIN c.m.ia /\ c.m.ia["p"] = e
@@ -98,11 +121,7 @@ SuppliesTarget(it) ==
 \* the option of a plain-argument target (t, d, or the parameter of a class group) is used on the command line
 UsesPlainOption(shape, it) == it.chan = "argv" /\ (it.key \in {"t", "d"} \/ (it.key = "mp" /\ shape.mkind = "grp"))
 
-\* out = [ok |-> BOOLEAN, c |-> configuration]
-RefParseOK(shape, items, out) ==
-  /\ out.ok => TargetEq(shape, out.c)                                                         \* the invariant
-  /\ (\E n \in DOMAIN items : UsesPlainOption(shape, items[n])) => ~out.ok                     \* option rejected
-  /\ (\A n \in DOMAIN items : ~SuppliesTarget(items[n])) => out.ok                             \* target not required
+\* (RefParseOK is stated below, after the fold of the supplied items which gives the final source values)
 \* the dump of c: the targets do not appear (dump = the configuration read back from the dump text)
 HidesTargetLink(dump, l) ==
   CASE l.tgt \in {"t", "d"} -> dump[l.tgt] = Absent
@@ -154,7 +173,7 @@ Defaults(shape) ==
          ELSE NoneV,
    s |-> IF HasS(shape) THEN NoneV ELSE Absent, o |-> IF HasO(shape) THEN NoneV ELSE Absent,
    mpath |-> Absent]                                                        \* meta: m carries __path__
-Err == [ok |-> FALSE, c |-> Defaults([links |-> << >>, mkind |-> "init", req |-> FALSE, sub |-> FALSE])]
+Err == [ok |-> FALSE, c |-> Defaults([links |-> << >>, mkind |-> "init", req |-> FALSE, sub |-> FALSE, ap |-> FALSE])]
 Ok(c) == [ok |-> TRUE, c |-> c]
 
 \* a class spec item: [k |-> "spec", c |-> class, given |-> init_args given].  While the sources are merged a class
@@ -215,27 +234,68 @@ SetTargetValue(shape, c, l, value) ==
   ELSE IF ~(c.m.k = "cls" /\ "p" \in DOMAIN c.m.ia) THEN c                                    \* :403-405 "ignored since target not found"
   ELSE [c EXCEPT !.m = ClsV(c.m.c, Put(c.m.ia, "p", value))]                                  \* :406
 \* apply_parsing_links:283-324, the links in the order they were created
+\* (a compute function that raises: call_compute_fn:264-271 turns it into ValueError, _parse_common:379-382 into
+\* parser.error -- the parse fails as a whole, whatever the links before it did to the working namespace)
 RECURSIVE ApplyParsingLinks(_, _, _)
 ApplyParsingLinks(shape, c, i) ==
-  IF i > Len(shape.links) THEN c
+  IF i > Len(shape.links) THEN Ok(c)
   ELSE LET l == shape.links[i]
            args == [j \in DOMAIN l.srcs |-> SrcVal(c, l.srcs[j])]                            \* :286-297
        IN IF ~Live(c, l) THEN ApplyParsingLinks(shape, c, i + 1)      \* :289-294,298-299 `source_key not in cfg`: the link is ignored
+          ELSE IF ~FnDefined(l.fn, args) THEN Err                                             \* :264-271, _core.py:379-382
           ELSE ApplyParsingLinks(shape, SetTargetValue(shape, c, l, FnApply(l.fn, args)), i + 1)   \* :301-323
 \* validate / check_required (_core.py:1097-1106): the plain targets were removed from required_args, and they have a value by now
-Validate(shape, c) == Ok(c)
+Validate(shape, r) == r
 
+\* the sources after every supplied item was merged and the class defaults were filled in (_core.py:371-373), i.e.
+\* the configuration the links are applied to
+Pre(shape, items) ==
+  LET r == Fold(shape, Ok(Defaults(shape)), items, 1) IN IF ~r.ok THEN Err ELSE Ok(AddSubDefaults(shape, r.c))
 \* _parse_common:377-384 after the sources were merged (a sub-command parser applies its own links, :278-280)
+\* (round 4) shape.ap: the parser that declares the links is used through ActionParser.  _move_parser_actions
+\* (_actions.py:540-595) moves its actions -- the link actions included -- into the parent, but not its _links_group,
+\* so apply_parsing_links returns at :281-282 (`not hasattr(parser, "_links_group")`): NO link is applied.  The moved
+\* link actions still reject their option (:257-259) and still keep the targets out of required_args.  This is the
+\* recorded deviation ApDropsLinks (finding C15 actionparser-drops-links).
+\* (round 4) shape.sub: handle_subcommands (_actions.py:792-804) first parses the sub-command parser's OWN defaults and
+\* environment (subparser.parse_env -> _parse_common -> apply_parsing_links, :798) and only then merges the settings given
+\* on the command line / in a config / in the object over them: the compute functions are called on those NON-FINAL
+\* source values too, and one that raises there fails the whole parse although the final values are fine.  Recorded
+\* deviation SubEnvRaises (finding C15 fn-called-on-nonfinal-sources:subcommand-env).
+EnvItems(items) == SelectSeq(items, LAMBDA it : it.chan = "env")
+SubEnvRaises(shape, items) == shape.sub /\ LET r == Pre(shape, EnvItems(items)) IN r.ok /\ Raising(shape, r.c)
+\* (round 4) items of the channel "dcf" come from a default config file of the parser (they are merged first).
+\* get_defaults (_core.py:1036-1058) runs _parse_common -- hence apply_parsing_links -- on the declared defaults merged
+\* with the file, i.e. again on NON-FINAL source values: a compute function that raises there makes every parse fail
+\* ("Problem in default config file") even when the final values are fine.  Recorded deviation DcfRaises (finding C15
+\* fn-called-on-nonfinal-sources:default-config-file).
+DcfItemsOf(items) == SelectSeq(items, LAMBDA it : it.chan = "dcf")
+DcfRaises(shape, items) == ~shape.sub /\ DcfItemsOf(items) # << >> /\ LET r == Pre(shape, DcfItemsOf(items)) IN r.ok /\ Raising(shape, r.c)
 AlgParse(shape, items) ==
-  LET r == Fold(shape, Ok(Defaults(shape)), items, 1) IN
-  IF ~r.ok THEN Err ELSE Validate(shape, ApplyParsingLinks(shape, AddSubDefaults(shape, r.c), 1))
+  LET r == Pre(shape, items) IN
+  IF ~r.ok THEN Err ELSE IF shape.ap THEN r
+  ELSE IF SubEnvRaises(shape, items) \/ DcfRaises(shape, items) THEN Err
+  ELSE Validate(shape, ApplyParsingLinks(shape, r.c, 1))
+
+\* ------------------------------------------------------------------ Ref: one parse.  out = [ok |-> BOOLEAN, c |-> configuration]
+\* (the FINAL source values of a failed parse are not observable: they are the fold of the supplied items, which is the
+\* part of the pipeline that other properties check)
+RaisesOn(shape, items) == LET r == Pre(shape, items) IN r.ok /\ Raising(shape, r.c)
+RefParseOK(shape, items, out) ==
+  /\ out.ok => TargetEq(shape, out.c)                                                         \* the invariant
+  /\ (\E n \in DOMAIN items : UsesPlainOption(shape, items[n])) => ~out.ok                     \* option rejected
+  /\ ((\A n \in DOMAIN items : ~SuppliesTarget(items[n])) /\ ~RaisesOn(shape, items)) => out.ok  \* target not required
+  /\ RaisesOn(shape, items) => ~out.ok                     \* a compute function that raises is a parse error
 
 \* strip_link_target_keys:450-472 (called by dump, _core.py:787-788)
 \*   :459-460  link actions that replaced a plain action: pop the key (a parent left empty is deleted, :456-457)
 \*   :463-465  linked_targets of class arguments: pop <dest>.init_args.p -- on a LIST value Namespace.pop finds nothing:
 \*             the recorded deviation ListItemsKeepTarget (finding C15 dump-keeps-target:list-item)
+\*   (shape.ap: the moved link action still names its target without the prefix of the ActionParser argument, so :459-460
+\*   pops nothing; the linked_targets of a class argument are found through action.dest, which was prefixed)
 StripLink(shape, c, l) ==
-  IF l.tgt \in {"t", "d"} THEN [c EXCEPT ![l.tgt] = Absent]
+  IF shape.ap /\ (l.tgt \in {"t", "d"} \/ c.m.k = "grp") THEN c
+  ELSE IF l.tgt \in {"t", "d"} THEN [c EXCEPT ![l.tgt] = Absent]
   ELSE IF c.m.k = "grp" THEN [c EXCEPT !.m = GrpV(Drop(c.m.ia, "p"))]
   ELSE IF c.m.k = "cls" THEN [c EXCEPT !.m = ClsV(c.m.c, Drop(c.m.ia, "p"))]
   ELSE c
@@ -268,13 +328,63 @@ MItems(chan, mv) ==
   ELSE << >>
 PlainItems(dump) ==
   LET Cfg(key, val) == [chan |-> "cfg", key |-> key, val |-> val] IN
-  <<Cfg("a", dump.a), Cfg("b", dump.b), Cfg("gx", dump.gx), Cfg("gy", dump.gy)>>
+  \* (a plain key that dump(skip_default=True) left out reads as None)
+  (IF dump.a = NoneV THEN << >> ELSE <<Cfg("a", dump.a)>>) \o (IF dump.b = NoneV THEN << >> ELSE <<Cfg("b", dump.b)>>)
+  \o (IF dump.gx = NoneV THEN << >> ELSE <<Cfg("gx", dump.gx)>>) \o (IF dump.gy = NoneV THEN << >> ELSE <<Cfg("gy", dump.gy)>>)
   \o (IF dump.o.k \in {"absent", "none"} THEN << >> ELSE <<Cfg("o", dump.o)>>)
   \o (IF dump.s.k = "cls" THEN <<Cfg("s", SpecOf(dump.s))>> ELSE << >>)
+  \o (IF dump.t.k = "absent" THEN << >> ELSE <<Cfg("t", dump.t)>>) \o (IF dump.d.k = "absent" THEN << >> ELSE <<Cfg("d", dump.d)>>)   \* (only under ApDropsLinks)
 DumpItems(shape, dump) == PlainItems(dump) \o MItems("cfg", dump.m)
-AlgReparse(shape, dump) == AlgParse(shape, DumpItems(shape, dump))
-AlgSaveReparse(shape, sv) ==
-  AlgParse(shape, PlainItems(sv.main) \o (IF sv.main.m.k = "ref" THEN MItems("cfgfile", sv.sub) ELSE MItems("cfg", sv.main.m)))
+\* (pre = the items of the parser's default config file: the same parser reads it again)
+AlgReparse(shape, pre, dump) == AlgParse(shape, pre \o DumpItems(shape, dump))
+AlgSaveReparse(shape, pre, sv) ==
+  AlgParse(shape, pre \o PlainItems(sv.main) \o (IF sv.main.m.k = "ref" THEN MItems("cfgfile", sv.sub) ELSE MItems("cfg", sv.main.m)))
+
+\* ------------------------------------------------------------------ (round 4) histories
+\* The caller changes sources in the namespace a parse returned and parses that namespace again (parse_object(ns)).
+\* Changed = the edited configuration (every source of the shape gets another value; 3 is the value par raises on):
+Other(v) == IF v = Int(3) THEN Int(4) ELSE Int(3)
+OtherOpt(v) == IF v = Int(3) THEN NoneV ELSE Int(3)
+Changed(shape, c) ==
+  LET S == SourcesOf(shape) IN
+  [c EXCEPT !.a = IF "a" \in S THEN Other(@) ELSE @, !.b = IF "b" \in S THEN Other(@) ELSE @, !.gx = IF "g" \in S THEN Other(@) ELSE @,
+            !.o = IF "o" \in S THEN OtherOpt(@) ELSE @,
+            !.s = IF "sl" \in S /\ @.k = "cls" /\ "limit" \in DOMAIN @.ia THEN ClsV(@.c, Put(@.ia, "limit", OtherOpt(@.ia["limit"]))) ELSE @]
+\* Ref: the re-parse succeeds unless a compute function raises on the edited sources (the stale target in the namespace
+\* is a supplied value like any other: accepted and overridden), it keeps the edited sources, and the target follows them
+HistOK(shape, hin, hout) ==
+  /\ hout.ok => (TargetEq(shape, hout.c) /\ LiveSources(shape, hout.c) = LiveSources(shape, hin))
+  /\ Raising(shape, hin) => ~hout.ok
+  /\ ~Raising(shape, hin) => hout.ok
+\* Alg: every key of the namespace, the targets included, is an item of the object
+FullItems(shape, c) ==
+  LET Obj(key, val) == [chan |-> "obj", key |-> key, val |-> val] IN
+  <<Obj("a", c.a), Obj("b", c.b), Obj("gx", c.gx), Obj("gy", c.gy)>>
+  \o (IF c.o.k = "absent" THEN << >> ELSE <<Obj("o", c.o)>>)
+  \o (IF c.s.k = "cls" THEN <<Obj("s", SpecOf(c.s))>> ELSE IF c.s.k = "none" THEN <<Obj("s", [k |-> "null"])>> ELSE << >>)
+  \o (IF c.t.k = "absent" THEN << >> ELSE <<Obj("t", c.t)>>) \o (IF c.d.k = "absent" THEN << >> ELSE <<Obj("d", c.d)>>)
+  \o MItems(IF c.mpath = PathV THEN "file" ELSE "obj", c.m)          \* (the namespace keeps __path__)
+\* (round 4) dump(skip_default=True), _core.py:818-822: the defaults (get_defaults: the declared defaults merged with the
+\* default config file, links applied) are stripped of the link targets and cleaned like the configuration, then
+\* _dump_delete_default_entries (:849-868) deletes every entry that equals its default, descending into groups; a
+\* class argument whose default is None is not among the defaults (skip_none removed it) and stays whole.
+\* pre = the items of the default config file.  A left-out plain key reads as None, a left-out group as None.
+SDVal(v, dflt) == IF v = dflt THEN NoneV ELSE v
+AlgDumpSD(shape, pre, c) ==
+  LET dm == AlgDump(shape, c)
+      df == AlgDump(shape, Fold(shape, Ok(Defaults(shape)), pre, 1).c)
+  IN [dm EXCEPT !.a = SDVal(@, df.a), !.b = SDVal(@, df.b), !.gx = SDVal(@, df.gx), !.gy = SDVal(@, df.gy),
+                !.o = IF df.o.k \in {"absent", "none"} THEN @ ELSE SDVal(@, df.o),
+                !.m = IF @.k = "grp" /\ df.m.k = "grp"
+                      THEN (LET keep == {y \in DOMAIN @.ia : ~(y \in DOMAIN df.m.ia /\ df.m.ia[y] = @.ia[y])}
+                            IN IF keep = {} THEN NoneV ELSE GrpV([x \in keep |-> @.ia[x]]))
+                      ELSE @]
+\* the outcome of a sub-command case deviates from the property because of SubEnvRaises
+SubEnvDeviation(shape, items, out) == SubEnvRaises(shape, items) /\ ~out.ok /\ ~RefParseOK(shape, items, out)
+DcfDeviation(shape, items, out) == DcfRaises(shape, items) /\ ~out.ok /\ ~RefParseOK(shape, items, out)
+\* the outcome of a shape.ap case really deviates from the property
+ApDropsLinks(shape, items, out, dump) == shape.ap /\ out.ok /\ ~(RefParseOK(shape, items, out) /\ DumpHidesTarget(shape, dump))
+AlgHist(shape, pre, hin) == AlgParse(shape, pre \o FullItems(shape, hin))
 
 \* link creation, _initial_input_checks:243-255 (apply_on = "parse")
 AlgLinkAllowed(created, new) ==
